@@ -231,7 +231,8 @@ def r2_node_ops(P, rep, ctx):
     nm = fi.params[1]
     dms = f.call_sites("__n._destroy_meta()") + f.call_sites("__n._destroy_meta(_unlink=True)")
     dm = [i for i, c, b in dms]
-    raw = [n.idx for n in g.nodes if any(isinstance(c.func, ast.Call) and (factory_call_info(P, None, c.func) or ("", ""))[0] == "__delitem__" for c in g.calls(n.idx)) or (n.kind == "stmt" and isinstance(n.stmt, ast.Delete) and any(is_raw_expr(t.value) for t in n.stmt.targets if isinstance(t, ast.Subscript)))]
+    raw = [n.idx for n in g.nodes if any(isinstance(c.func, ast.Call) and (factory_call_info(P, None, c.func) or ("", ""))[0] == "__delitem__" for c in g.calls(n.idx)) or (n.kind == "stmt" and isinstance(n.stmt, ast.Delete) and any(is_raw_expr(t.value) for t in n.stmt.targets if isinstance(t, ast.Subscript)))
+           or any(isinstance(c.func, ast.Attribute) and c.func.attr == "__delitem__" and is_raw_expr(c.func.value) for c in g.calls(n.idx))]
     ok = bool(dm) and bool(raw) and f.all_hit_before(raw, nodes=dm) and f.hit_before(g.exit, nodes=raw)
     rep.check(ok, "C06.R2", fi.qual, "metadata of the node (and below) is destroyed before the node itself is deleted", fi.loc(), construct="_destroy_meta before raw delete", message="MetadorGroup.__delitem__ deletes the node without first destroying/unlinking its metadata (dangling TOC links)")
     rep.check(bool(dms) and all(f.x(b["__n"]) == f"self[{nm}]" for i, c, b in dms), "C06.R2", fi.qual, "the destroyed metadata is that of the deleted node", fi.loc(), construct="destroyed node", message="__delitem__ does not destroy the metadata of self[name]")
